@@ -46,7 +46,9 @@ def _model(cx):
 
 
 def _opts(cx, mode):
-    return cx.obj(types.SimpleNamespace, hydraulic=cx.obj(types.SimpleNamespace, demand_model=mode))
+    ps = cx.int("pattern_start")
+    cx.assume(cx.t(ps) >= 0)
+    return cx.obj(types.SimpleNamespace, hydraulic=cx.obj(types.SimpleNamespace, demand_model=mode), time=cx.obj(types.SimpleNamespace, pattern_start=ps))
 
 
 def _val(name, n, cx):
@@ -167,7 +169,9 @@ def _store_source_case(cls, leak):
                      ("leak_demand_is_leak_rate_iff_active", cx.num(cx.field(node, "_leak_demand")) == lk),
                      ("frame_only_own_fields", _only_own_fields(cx.path, node))]
             if cls is Reservoir:
-                posts.append(("reservoir_head_is_head_timeseries_now", cx.num(cx.field(node, "_head")) == RES_HEAD(nt, cx.t(st))))
+                # head patterns, like demand patterns, start at the pattern start time (EPANET applies PATTERN START to every time pattern)
+                posts.append(("reservoir_head_is_its_head_pattern_at_simulation_time_plus_pattern_start",
+                              cx.num(cx.field(node, "_head")) == RES_HEAD(nt, cx.t(st) + cx.t(cx.inputs["pattern_start"]))))
             else:
                 posts.append(("tank_head_untouched", cx.num(cx.field(node, "_head")) == cx.t(old_head)))
             return posts
